@@ -4,13 +4,21 @@ use crate::util::*;
 use pocket_types::{Event, Filter};
 use serde_json::json;
 
-const TAG_NAMES: [&str; 8] = ["e", "p", "t", "d", "a", "E", "ab", ""];
+const TAG_NAMES: [&str; 12] = ["e", "p", "t", "d", "a", "E", "ab", "", "ee", "expiration", "P", "tt"];
 
 fn value_pool(rng: &mut Rng) -> String {
-    let pool: [&str; 14] = [
+    // incl. 64-digit hex values spelled in lower, upper and mixed case (equal only byte for byte), a 63- and a
+    // 65-digit neighbour, and values that differ only in case or in a trailing byte
+    let pool: [&str; 24] = [
         "", "a", "ab", "abc", "b", "a\u{0}", "a ", "A", "\u{e9}", "x",
         "0000000000000000000000000000000000000000000000000000000000000001",
         "0000000000000000000000000000000000000000000000000000000000000002", "ab\u{0}\u{0}", "aa",
+        "a966a0c7a966a0c7a966a0c7a966a0c7a966a0c7a966a0c7a966a0c7a966a0c7",
+        "A966A0C7A966A0C7A966A0C7A966A0C7A966A0C7A966A0C7A966A0C7A966A0C7",
+        "a966a0c7a966a0c7a966a0c7a966a0c7A966A0C7a966a0c7a966a0c7a966a0c7",
+        "a966a0c7a966a0c7a966a0c7a966a0c7a966a0c7a966a0c7a966a0c7a966a0c",
+        "a966a0c7a966a0c7a966a0c7a966a0c7a966a0c7a966a0c7a966a0c7a966a0c70",
+        "nostr", "Nostr", "NOSTR", "wss://r.example/", "wss://r.example",
     ];
     if rng.chance(1, 12) {
         let base = "L".repeat(182);
